@@ -48,7 +48,7 @@ RULE = ("complete enumeration of the table (slot = operator/factory x user-callb
         "{hot probe, harness-driven Subject, cold probe, from_iterable}; variant 0 = fixed timeline of 6 distinct elements, "
         "operator last; further variants = seeded timeline (2..8 elements, gaps 0/5/10 so that same-instant elements occur, "
         "terminal C/E/never unless the slot needs one, value domain uniq/ints/dups/hashable-falsy) and an optional "
-        "error-transparent tail stage map(ident)/filter(always). quick = variants 0-1, thorough = variants 0-23. "
+        "error-transparent tail stage map(ident)/filter(always). quick = variants 0-1, thorough = variants 0-47. "
         "non-trivial = the k-th invocation happened and the exception was raised into the library; "
         "distinct = (slot, k, kind, variant); a slot counts as reached when at least one of its injections happened")
 ASSUMPTIONS = ["reactivex.testing.TestScheduler is used as the clock (its ordering is checked independently by C28)",
@@ -58,7 +58,7 @@ ASSUMPTIONS = ["reactivex.testing.TestScheduler is used as the clock (its orderi
                "before release is judged (C02 reading of 'released')"]
 SUB_AT = 200.0
 KINDS = ["hot", "subject", "cold", "iter"]
-VARIANTS = {"quick": 2, "thorough": 24}
+VARIANTS = {"quick": 2, "thorough": 48}
 SYMPTOMS = ["escaped", "escaped_sched", "not_delivered", "wrong_exception", "continued", "not_released", "foreign_escape"]
 
 
@@ -461,7 +461,7 @@ S("to_async:func", lambda c: rx.to_async(c.cb(lambda a, b: a + b), c.lab.ts)(1, 
 S("from_callable:supplier", lambda c: rx.from_callable(c.cb(lambda: 1)), src=False, maxk=1)
 S("start_async:function_async", lambda c: rx.start_async(c.cb(lambda: None)), src=False, maxk=1, when="build")
 
-N_SLOTS = 118   # literal on purpose: if the table shrinks, REQUIRED makes the run inconclusive
+N_SLOTS = 115   # literal on purpose: if the table shrinks, REQUIRED makes the run inconclusive
 assert len({s.id for s in SLOTS}) == len(SLOTS)
 
 BASE: list[tuple[int, int, str]] = [(si, k, kind) for si, s in enumerate(SLOTS) for k in range(1, s.maxk + 1)
@@ -470,8 +470,8 @@ REQUIRED = {
     "set:slots": N_SLOTS,
     "set:slot_kind": 400,
     "set:kinds": 5,
-    "injections": {"quick": 2400, "thorough": 28000},
-    "subscriptions_judged_for_release": {"quick": 3000, "thorough": 36000},
+    "injections": {"quick": 2400, "thorough": 56000},
+    "subscriptions_judged_for_release": {"quick": 3000, "thorough": 70000},
 }
 
 
@@ -544,7 +544,7 @@ def run_case(seed: int, idx: int, res: UnitResult) -> None:
     elif pipeline is not None and case["tail"] == "filter":
         pipeline = pipeline.pipe(ops.filter(ctx.fn("tail:filter", R.always)))
 
-    state = {"cleanup": False, "cleaned": 0}
+    state: dict = {"cleanup": False, "cleaned": 0}
 
     def cleanup() -> None:
         for ch in top.tree()[1:]:
@@ -612,7 +612,16 @@ def run_case(seed: int, idx: int, res: UnitResult) -> None:
         found.append(("wrong_exception", "top subscriber got E(%r), expected the injected object %r" % (term[1], injected)))
     else:
         t_err, seq_err = term[2], term[3]
-        late = [e for e in lab.ev if e[0] > seq_err and (e[2] in ("cb", "pull", "sub") or (e[2] == "recv" and e[3] == "top"))]
+        # a window/group that is still open keeps its sources legitimately (C02) until the harness has unsubscribed it
+        quiet_from = seq_err
+        for ch in top.tree()[1:]:
+            ends = [x for x in (ch.terminal[3] if ch.terminal is not None else None, ch.dispose_seq) if x is not None]
+            if ends:
+                quiet_from = max(quiet_from, min(ends))
+        if quiet_from > seq_err:
+            res.count("injections:window_or_group_outlived_the_error")
+        late = [e for e in lab.ev if (e[0] > quiet_from and e[2] in ("cb", "pull", "sub")) or
+                (e[0] > seq_err and e[2] == "recv" and e[3] == "top")]
         if late:
             found.append(("continued", "after E (seq %d, t=%g): %s" % (seq_err, t_err, show([e[1:5] for e in late[:4]]))))
         for o in top.tree():
